@@ -47,6 +47,24 @@ CHECKS = {
              "placement is replayed through the real BondMaker at three rigid shifts; real bond sets, bridge flags and the "
              "recorded pair-loop traversal of random dense clouds are checked by TLC. Thresholds are read from the working tree.",
         design="5/C11"),
+    "C09": dict(
+        engine="Profiles",
+        technique="TLA+ exact-rational charge family and bisection mechanism model-checked by TLC; TLC-generated site sets "
+                  "replayed into real Group/get_charge_profile/get_pi; API values and .pka tables of real runs trace-validated by TLC",
+        text="TLC checks the single-site axioms, sign-monotone totals on the exact family (integer pK-pH, 1-3 sites) and the "
+             "bisection mechanism for every threshold of a 1024-point lattice; each site set is built from real Group objects and "
+             "the real profile/pI compared with the rationals and unit brackets; on real runs TLC checks per-group bounds, "
+             "mid-point, monotonicity, sum-of-groups per column, pI brackets and the printed charge table and pI line.",
+        design="5/C09"),
+    "C10": dict(
+        engine="Profiles",
+        technique="TLA+ grid/window/linkage spec model-checked by TLC; TLC-generated grids and windows replayed into make_grid "
+                  "and the folding-profile writer; API profiles and .pka tables of real runs trace-validated by TLC (interval linkage)",
+        text="TLC checks grid-by-accumulation = grid-by-index with both end points and the window-row definition, emits every "
+             "(min,max,step) and (window, grid step) of the domain for replay through the real make_grid / writer; on real runs "
+             "TLC checks exact grids, per-group and total proton linkage by mean-value intervals over reported charges, the "
+             "optimum as first minimum, both ranges, and the printed folding table and optimum line.",
+        design="5/C10"),
 }
 
 NOT_APPLICABLE = {}
